@@ -4,6 +4,7 @@ CONSTANTS
   XVerify = {TRUE, FALSE}
   XConnectors = {"custom", "default"}
   XTimeouts = {"none", "short"}
+  XVias = {"dial", "stream-last", "stream-first"}
   XResps = {"success", "refuse", "garbage", "close", "hangup", "wrongid", "stall"}
   XRcs = {1, 2, 10, 14, 52, 53}
   XInjs = {"none", "before", "with", "after"}
